@@ -10,7 +10,9 @@ Obligations decided on every path:
  (c) persist-before-send: every outbound message is preceded in program order by a SUCCESSFUL set_state whose
      snapshot (the argument built by the real backup_state) equals the state the message was derived from — so a
      crash at any point leaves durable state that already records everything that was signed;
- (d) restart: StateMachine::start restores exactly view / phase / high vote / certificates of a same-epoch backup.
+ (d) restart: StateMachine::start restores exactly view / phase / high vote / certificates of a same-epoch backup;
+ (e) the durable write itself: EngineManager::set_state forwards every state to the execution layer unchanged, exactly
+     once, and get_state returns what the execution layer holds (props/c03_engine.py).
 The history-level statement (never two votes per view over a whole run, across crashes) follows from (a)-(d) by
 induction over steps; that induction is a paper argument and is stated as an assumption.
 """
@@ -35,4 +37,9 @@ def run(rep, db, tier, seed):
         replica_start.run(rep, db, tier)
     except Unmodelled as u:
         rep.add(F.Obligation('restart restores the durable snapshot (StateMachine::start)', 'inconclusive', str(u)[:600]))
+    try:
+        from props import c03_engine
+        c03_engine.run(rep, db, tier)
+    except Exception as u:
+        rep.add(F.Obligation('EngineManager::set_state / get_state pass-through', 'inconclusive', f'{type(u).__name__}: {u}'[:600]))
     rep.extra['explanation'] = 'one-step vote-discipline, monotonicity and persist-before-send obligations on the real handler MIR for all symbolic states/inputs within the bound'
